@@ -67,7 +67,7 @@ func obligationText(o *Obligation, models bool) string {
 }
 
 func fileSafe(s string) string {
-	r := strings.NewReplacer("/", "_", " ", "_", "*", "p", "(", "", ")", "", "[", "_", "]", "_", ":", "_", "#", "-", "\"", "", "'", "", "$", "_", "<", "lt", ">", "gt", "|", "_", "&", "_", "~", "-", ",", "_", "=", "_", "!", "_", ";", "_", "\\", "_", "?", "_", "{", "_", "}", "_")
+	r := strings.NewReplacer("/", "_", " ", "_", "*", "p", "(", "", ")", "", "[", "_", "]", "_", ":", "_", "#", "-", "\"", "", "'", "", "$", "_", "<", "lt", ">", "gt", "|", "_", "&", "_", "~", "-", ",", "_", "=", "_", "!", "_", ";", "_", "\\", "_", "?", "_", "{", "_", "}", "_", "`", "", "%", "_", "+", "_", "@", "_at_")
 	s = r.Replace(s)
 	if len(s) > 150 {
 		s = s[:150]
